@@ -250,6 +250,9 @@ func kfArrayRange(args []KeyBuilderStage) (KeyBuilderStage, error) {
 		return stageErrArgRange(args, "1-3")
 	}
 
+	// Largest array built (like MAX_ITERATIONS of @for). Prevents a memory-crash by a single odd value
+	const maxRangeElements = 1_000_000
+
 	return func(context KeyBuilderContext) string {
 		start, err := strconv.Atoi(sStart(context))
 		if err != nil {
@@ -278,7 +281,12 @@ func kfArrayRange(args []KeyBuilderStage) (KeyBuilderStage, error) {
 		}
 
 		var sb strings.Builder
+		count := 0
 		for i := start; (incr > 0 && i < stop) || (incr < 0 && i > stop); i += incr {
+			count++
+			if count > maxRangeElements {
+				return ErrorValue
+			}
 			if sb.Len() > 0 {
 				sb.WriteRune(ArraySeparator)
 			}
